@@ -126,11 +126,21 @@ def unknown_labels(run, rng, n):
         vals = np.array([I.unf(v) for v in G.rand_vals(rng, m, alphabet=G.ALPHA_FINITE + ["nan"], p_special=0.1)], dtype=float)
         func = rng.choice(["sum", "nansum", "max", "nanmin", "count", "mean", "nanfirst", "nanlast", "nanvar", "prod"])
         chunks = tuple(G.random_composition(rng, m))
+        dchunks = (chunks,)
+        if rng.random() < 0.3 and func not in ("nanfirst", "nanlast"):
+            # N-D labels (reduced over all their axes), integer labels that include -1 and other negative values as ORDINARY labels
+            a, b = rng.randint(1, 3), rng.randint(2, 4)
+            m = a * b
+            ipool = rng.sample([-3, -1, -1, 0, 1, 2, 5], k=rng.randint(1, 4))
+            labels = np.array([rng.choice(ipool) for _ in range(m)], dtype=rng.choice(["int64", "int8"])).reshape(a, b)
+            vals = np.array([float(rng.randint(-3, 3)) for _ in range(m)]).reshape(a, b)
+            dchunks = (tuple(G.random_composition(rng, a)), tuple(G.random_composition(rng, b)))
+            chunks = dchunks[0] + dchunks[1]
         with warnings.catch_warnings(), dask.config.set(scheduler="sync", split_every=rng.choice([2, 4])):
             warnings.simplefilter("ignore")
             try:
                 sort = rng.random() < 0.6
-                r, g = flox.groupby_reduce(da.from_array(vals, chunks=(chunks,)), da.from_array(labels, chunks=(chunks,)), func=func,
+                r, g = flox.groupby_reduce(da.from_array(vals, chunks=dchunks), da.from_array(labels, chunks=dchunks), func=func,
                                            engine=rng.choice(["numpy", "flox"]), sort=sort)
                 lazy = isinstance(r, da.Array) and isinstance(g, da.Array)
                 rr, gg = dask.compute(r, g)
@@ -144,9 +154,9 @@ def unknown_labels(run, rng, n):
             and (not sort or list(np.asarray(gg)) == sorted(np.asarray(gg))) and len(np.asarray(gg)) == len(set(np.asarray(gg).tolist()))
         if not ok:
             run.violation({"property": "C12", "kind": "labels / values found at compute time differ from the eager label->value mapping",
-                           "func": func, "vals": [I.fnum(x) for x in vals], "labels": [I.fnum(x) for x in labels], "label_dtype": str(labels.dtype),
+                           "func": func, "vals": [I.fnum(x) for x in vals.reshape(-1)], "labels": [I.fnum(x) for x in labels.reshape(-1)], "label_shape": list(labels.shape), "label_dtype": str(labels.dtype),
                            "chunks": list(chunks), "chunked": got, "eager": want, "lazy": lazy, "sort": sort}, tag="unk")
-    run.sample({"unknown_labels_case": {"func": func, "labels": [I.fnum(x) for x in labels], "chunks": list(chunks)}})
+    run.sample({"unknown_labels_case": {"func": func, "labels": [I.fnum(x) for x in labels.reshape(-1)], "chunks": list(chunks)}})
 
 
 def run(run: C.Run):
